@@ -142,7 +142,7 @@ static void body(Run &r, Counters &c, int f, int mode, const Family &fam, Ctx &x
 	if (mode == 1) { static const size_t G[] = {1, 2, 3, 64}; grant = G[x.choose(4)]; }
 	bool haszero = std::find(m.begin(), m.end(), 0) != m.end();
 	bool admitted = f != ref::COMMAND || !haszero;
-	std::string sc = std::string(ref::framing_name[f]) + (mode ? "|direct" : "|array_push");
+	std::string sc = std::string(ref::framing_name[f]) + (mode == 2 ? "|array_shift" : (mode ? "|direct" : "|array_push"));
 	std::string desc = fmt("%s msg[%zu]={%s} pieces=%zu(first %zu) grant=%zu", sc.c_str(), m.size(), ref::hexs(m).c_str(), pieces.size(), pieces.empty() ? 0 : pieces[0], grant);
 	r.hint((sc + "|encode").c_str());
 	r.note("%s", desc.c_str());
@@ -171,6 +171,40 @@ static void body(Run &r, Counters &c, int f, int mode, const Family &fam, Ctx &x
 			produced = true;
 		}
 		if (arr._d._buf.instance() && arr._d._buf.instance()->_size > 64) ft.retry = true;
+	} else if (mode == 2) {
+		// one encode_array carries several frames and its output space is recycled with shift(): an earlier frame is
+		// absent / handed out and consumed / still pending, the used segment is moved to the front between two pushes
+		encode_array arr(encoders[f]);
+		uint64_t pre = x.choose(3), mv = pieces.size() > 1 ? x.choose(2) : 0;
+		Bytes prefix; size_t off = 0; bool fail = false;
+		if (pre) {
+			static const uint8_t P0[] = {'p', 0, 'q'}, P1[] = {'p', 'q'};
+			ssize_t ret = f == ref::COMMAND ? LIB(mpt_array_push(&arr, sizeof P1, P1)) : LIB(mpt_array_push(&arr, sizeof P0, P0));
+			if (ret < 0 || LIB(mpt_array_push(&arr, 0, 0)) < 0) { err = "earlier frame refused"; fail = true; }
+			else if (pre == 1) { if (!LIB(arr.shift(arr.data().size()))) { err = "consuming the finished frame refused"; fail = true; } }
+			else { span<const uint8_t> d = arr.data(); prefix.assign(d.begin(), d.end()); }
+		}
+		size_t pi = 0;
+		for (size_t p : pieces) {
+			if (fail) break;
+			if (p) {
+				uint8_t *piece = (uint8_t *) malloc(p); memcpy(piece, m.data() + off, p);
+				ssize_t ret = LIB(mpt_array_push(&arr, p, piece));
+				free(piece);
+				if (ret != (ssize_t) p) { err = fmt("push of %zu bytes at offset %zu returned %zd", p, off, ret); fail = true; break; }
+				off += p;
+			}
+			if (!pi++ && mv) LIB(arr.shift(0));
+		}
+		if (!fail && LIB(mpt_array_push(&arr, 0, 0)) < 0) { err = "frame termination refused"; fail = true; }
+		if (!fail) {
+			span<const uint8_t> d = arr.data();
+			Bytes all; if (d.size() && d.begin()) all.assign(d.begin(), d.end());
+			if (all.size() < prefix.size() || !std::equal(prefix.begin(), prefix.end(), all.begin())) { r.violation(sc + "|frame|earlier-frame-changed", desc + ": the pending earlier frame {" + ref::hexs(prefix) + "} reads {" + ref::hexs(all) + "} after the next message"); return; }
+			frame.assign(all.begin() + prefix.size(), all.end());
+			produced = true;
+		}
+		desc += fmt(" earlier-frame=%s shift(0)=%d", pre == 0 ? "none" : (pre == 1 ? "consumed" : "pending"), (int) mv);
 	} else {
 		encode_state st;
 		size_t wlen = grant; uint8_t *win = (uint8_t *) malloc(wlen);
@@ -253,6 +287,8 @@ void mc_jobs(Tier t, std::vector<std::string> &jobs)
 		for (size_t i = 0; i < n2; ++i) jobs.push_back(fmt("%d:%d:2:%zu", f, mode, i));
 		if (t == Thorough) for (size_t i = 0; i < sizeof N3 / sizeof *N3; ++i) jobs.push_back(fmt("%d:%d:3:%zu", f, mode, i));
 	}
+	// mode 2: encode_array with recycled output space (shift), short strings and the first run lengths only
+	for (int f = 0; f < 5; ++f) { jobs.push_back(fmt("%d:2:9:0", f)); for (size_t i = 0; i < 3; ++i) jobs.push_back(fmt("%d:2:2:%zu", f, i)); }
 	jobs.push_back("python");
 }
 
@@ -263,7 +299,7 @@ static void python_job(Run &r, const Vec *only)
 	std::string cmd = "python3 tools/pyframes.py " + std::string(getenv("MC_REPO") ? getenv("MC_REPO") : "/repo") + "/mpt.py";
 	FILE *p = popen(cmd.c_str(), "r");
 	if (!p) { r.violation("python|popen", "cannot run python3"); return; }
-	char *line = 0; size_t cap = 0; uint64_t idx = 0, nontriv = 0;
+	char *line = 0; size_t cap = 0; uint64_t idx = 0, nontriv = 0, refused = 0;
 	auto unhex = [](const char *s, Bytes &b) { b.clear(); if (s[0] == '-') return; for (; s[0] && s[1]; s += 2) { unsigned v; sscanf(s, "%2x", &v); b.push_back((uint8_t) v); } };
 	while (getline(&line, &cap, p) > 0) {
 		char fr[32]; char *hm = (char *) malloc(cap), *hf = (char *) malloc(cap);
@@ -275,7 +311,12 @@ static void python_job(Run &r, const Vec *only)
 				int f = !strcmp(fr, "command") ? ref::COMMAND : ref::COBS;
 				std::string desc = fmt("python %s msg[%zu]={%s} frame {%s}", fr, m.size(), ref::hexs(m).c_str(), ref::hexs(frame).c_str());
 				r.note("%s", desc.c_str());
-				if (!strcmp(hf, "ERROR")) r.violation(std::string("python|") + fr + "|encode|exception", desc + ": encoder raised an exception");
+				bool admitted = f != ref::COMMAND || std::find(m.begin(), m.end(), 0) == m.end();
+				if (!admitted) {
+					if (strcmp(hf, "ERROR")) r.violation(std::string("python|") + fr + "|zero-in-text|accepted", desc + ": message containing a zero byte was framed as command text");
+					else ++refused;
+				}
+				else if (!strcmp(hf, "ERROR")) r.violation(std::string("python|") + fr + "|encode|exception", desc + ": encoder raised an exception");
 				else {
 					want = m; if (f == ref::COMMAND) { want.insert(want.begin(), ' '); want.insert(want.begin(), (uint8_t) msgtype::Command); }
 					std::string why; asan_error();
@@ -295,7 +336,7 @@ static void python_job(Run &r, const Vec *only)
 	free(line);
 	int st = pclose(p);
 	if (st != 0 && !only) r.violation("python|script", "tools/pyframes.py failed (cannot import mpt.py?)");
-	r.count("python_frames", idx); r.count("python_long_messages", nontriv);
+	r.count("python_frames", idx); r.count("python_long_messages", nontriv); r.count("python_command_zero_refused", refused);
 }
 
 void mc_explore(Run &r, const std::string &job)
